@@ -100,6 +100,14 @@ func expectedAttrValue(a *MAttr) (string, bool) {
 	return "", false
 }
 
+// signedView renders an unsigned 4/8-byte integer attribute the way expectedAttrValue would if the type were signed.
+func signedView(a *MAttr) string {
+	c := *a
+	c.Signed = true
+	v, _ := expectedAttrValue(&c)
+	return v
+}
+
 func indexByte(b []byte, c byte) int {
 	for i, x := range b {
 		if x == c {
@@ -164,7 +172,8 @@ func compareAttrs(path string, want map[string]*MAttr, got []obs.Attr, gotErr st
 			}
 			if gv != exp {
 				k := "attr-value"
-				if w.Class == 0 && !w.Signed {
+				if w.Class == 0 && !w.Signed && gv == signedView(w) {
+					// exactly the open finding: the unsigned value read back as the signed integer with the same bits
 					k = "attr-value-unsigned"
 				}
 				ps = append(ps, Problem{k, path, fmt.Sprintf("attribute %q ReadValue = %s, written %s", g.Name, clip(gv), clip(exp))})
